@@ -951,11 +951,16 @@ impl Walk {
             }
         }
         if self.max_filesize.is_some() && !ent.is_dir() {
-            return Ok(skip_filesize(
+            // Don't return the verdict directly: a file that is small enough
+            // is still subject to the entry filter below, as it is in the
+            // parallel walker.
+            if skip_filesize(
                 self.max_filesize.unwrap(),
                 ent.path(),
                 &ent.metadata().ok(),
-            ));
+            ) {
+                return Ok(true);
+            }
         }
         if let Some(Filter(filter)) = &self.filter {
             if !filter(ent) {
